@@ -16,8 +16,8 @@ def run(tier, seed):
     jobs = []
     for prof, b in bins.items():
         for ty in ('f32', 'f64'):
-            for sh in range(4 if th else 1):
-                jobs.append({'profile': prof, 'verif_seed': seed * 100 + sh, 'ty': ty, 'n_random': 100, 'positions': 4 if th else 2, 'n_maps': 24 if th else 8, 'cases': [], '_bin': b})
+            for sh in range(4 if th else 2):
+                jobs.append({'profile': prof, 'verif_seed': seed * 100 + sh, 'ty': ty, 'n_random': 300 if th else 200, 'positions': 6 if th else 4, 'n_maps': 48 if th else 24, 'cases': [], '_bin': b})
     events, meta = V.run_shards(None, 'c07', jobs, wd, 'c07', wall_timeout=7200, resumable=False)
     ver = V.Verdict('C07')
     pairs = skipped = 0
